@@ -29,7 +29,16 @@ static int warm_state;   /* session differential: 0 = not yet, 1 = in progress, 
 static void fatal_cb(const san_event_t *e);
 static const char *fatal_what = "";
 static void abort_cb(const char *kind, const char *detail) {
-	res_printf("A %s\t%s\n", kind, detail);
+	/* a deadlock / an exceeded horizon with threads blocked at library locks: the class names who holds and who wants what, so that
+	 * different hold-and-wait sites are different findings */
+	char who[400]; size_t o = 0; who[0] = 0;
+	if (!strcmp(kind, "deadlock") || !strcmp(kind, "horizon")) for (int t = 0; t < VS_MAXT && o + 120 < sizeof who; t++) {
+		char held[160]; held[0] = 0; if (vs_held_count(t)) vs_held_desc(t, held, sizeof held);
+		const char *w = strstr(detail, "t0:"); char key[16]; snprintf(key, sizeof key, "t%d:want-", t); const char *want = w ? strstr(w, key) : NULL; char wl[80]; wl[0] = 0;
+		if (want) { const char *a = strchr(want, '('), *b = a ? strchr(a, ')') : NULL; if (a && b && (size_t) (b - a) < sizeof wl) { memcpy(wl, a + 1, (size_t) (b - a - 1)); wl[b - a - 1] = 0; } }
+		if (held[0] || wl[0]) o += (size_t) snprintf(who + o, sizeof who - o, " t%d%s%s%s%s", t, held[0] ? " holds " : "", held, wl[0] ? " wants " : "", wl);
+	}
+	res_printf("A %s%s%s\t%s\n", kind, who[0] ? " blocked:" : "", who, detail);
 	hx_emit_trace();
 	res_finish();
 }
